@@ -2879,6 +2879,25 @@ class Exec:
                     nxt.append((s, Next()))
                 elif isinstance(tgt, ast.Subscript):
                     for s1, o in self.ev(tgt.value, env, s, ctx):
+                        if isinstance(o, VDict) and not isinstance(tgt.slice, ast.Slice):
+                            # del d[k]: the entry whose key equals k (KeyError if none); the key must be decidable
+                            for s2, k in self.ev(tgt.slice, env, s1, ctx):
+                                cur = o.of(s2)
+                                hit = None
+                                for i, (kk, _) in enumerate(cur):
+                                    e = z3.simplify(self.eq(kk, k, s2))
+                                    if z3.is_true(e) or (not z3.is_false(e) and self.entails(s2, e)):
+                                        hit = i
+                                        break
+                                    if not z3.is_false(e) and not self.entails(s2, z3.Not(e)):
+                                        raise ToolLimit('del of a dict entry with a key that may or may not be present')
+                                if hit is None:
+                                    nxt.append((s2, Raise('KeyError', n.lineno)))
+                                else:
+                                    del cur[hit]
+                                    s2.heap[o.cell] = tuple(cur)
+                                    nxt.append((s2, Next()))
+                            continue
                         if not isinstance(o, VBuf):
                             raise ToolLimit('del on non-bytearray')
                         S = s1.heap[o.cell]
